@@ -54,7 +54,7 @@ func (c *VerifCtx) verifyFunction(ct *Contract) (res *FuncResult) {
 		v := FreshV(p.Type(), "arg."+p.Name())
 		ex.wellFormed(st0, v, TrueT)
 		args = append(args, v)
-		ex.addProbes("arg."+p.Name(), v, p.Type(), st0, 2)
+		ex.addProbes("arg."+p.Name(), v, p.Type(), st0, 3)
 	}
 	env := &SpecEnv{vars: map[types.Object]Value{}, st: st0, old: st0}
 	bindStubParams(ct, info, env, args)
@@ -220,6 +220,14 @@ func (ex *Exec) addProbes(name string, v Value, t types.Type, st *State, depth i
 				ex.addProbes(name+"."+stt.Field(i).Name(), f, stt.Field(i).Type(), st, depth)
 			}
 		}
+	case FuncV:
+		if x.Fn == nil {
+			ex.probes = append(ex.probes, Probe{name, x.ID})
+		}
+	case MapV:
+		ex.probes = append(ex.probes, Probe{name, x.Ref})
+	case ChanV:
+		ex.probes = append(ex.probes, Probe{name, x.Ref})
 	case ArrV:
 		for i := int64(0); i < x.N && i < 16; i++ {
 			ex.probes = append(ex.probes, Probe{fmt.Sprintf("%s[%d]", name, i), SelectA(x.A, BV(uint64(i), 64))})
